@@ -1,0 +1,210 @@
+// SPDX-FileCopyrightText: 2026 The Pion community <https://pion.ly>
+// SPDX-License-Identifier: MIT
+
+//go:build verif && !js
+
+package webrtc
+
+import (
+	"errors"
+	"io"
+	"net"
+	"time"
+
+	"github.com/pion/sdp/v3"
+	"github.com/pion/srtp/v3"
+)
+
+// Verification hook for the simulcast probing part of handleIncomingSSRC (C30): the whole function is run
+// on the calling goroutine with real SRTP/SRTCP sessions installed in the connection's DTLS transport, so
+// that streamsForSSRC succeeds and the mid / rid / rsid probing loop over the transceivers runs on the
+// packets supplied by the caller.
+
+// VerifConfigureReceiverRIDs gives the transceiver's receiver (if any) one RID based track per rid, as
+// configureRTPReceivers does for a remote section with a=rid lines.
+func VerifConfigureReceiverRIDs(t *RTPTransceiver, rids []string) {
+	r := t.Receiver()
+	if r == nil || len(rids) == 0 {
+		return
+	}
+	p := RTPReceiveParameters{}
+	for _, rid := range rids {
+		p.Encodings = append(p.Encodings, RTPDecodingParameters{RTPCodingParameters: RTPCodingParameters{RID: rid}})
+	}
+	r.configureReceive(p)
+}
+
+// VerifHeaderExtensionIDs reports the negotiated ids of the sdes:mid, sdes:rtp-stream-id and
+// sdes:repaired-rtp-stream-id header extensions after the MediaEngine was updated from the description.
+func VerifHeaderExtensionIDs(pc *PeerConnection, typ SDPType, s *sdp.SessionDescription) (mid, rid, rsid int) {
+	verifInstallRemote(pc, typ, s)
+	mid, _, _ = pc.api.mediaEngine.getHeaderExtensionID(RTPHeaderExtensionCapability{sdp.SDESMidURI})
+	rid, _, _ = pc.api.mediaEngine.getHeaderExtensionID(RTPHeaderExtensionCapability{sdp.SDESRTPStreamIDURI})
+	rsid, _, _ = pc.api.mediaEngine.getHeaderExtensionID(RTPHeaderExtensionCapability{sdp.SDESRepairRTPStreamIDURI})
+
+	return mid, rid, rsid
+}
+
+func verifSRTCPPair() (*srtp.SessionSRTCP, *srtp.SessionSRTCP, func(), error) {
+	ca, cb := net.Pipe()
+	key := []byte{1, 2, 3, 4, 5, 6, 7, 8, 9, 10, 11, 12, 13, 14, 15, 16}
+	salt := []byte{1, 2, 3, 4, 5, 6, 7, 8, 9, 10, 11, 12, 13, 14}
+	cfg := func() *srtp.Config {
+		return &srtp.Config{
+			Profile: srtp.ProtectionProfileAes128CmHmacSha1_80,
+			Keys: srtp.SessionKeys{
+				LocalMasterKey: key, LocalMasterSalt: salt, RemoteMasterKey: key, RemoteMasterSalt: salt,
+			},
+		}
+	}
+	sa, err := srtp.NewSessionSRTCP(ca, cfg())
+	if err != nil {
+		return nil, nil, nil, err
+	}
+	sb, err := srtp.NewSessionSRTCP(cb, cfg())
+	if err != nil {
+		_ = sa.Close()
+
+		return nil, nil, nil, err
+	}
+
+	return sa, sb, func() { _ = sa.Close(); _ = sb.Close(); _ = ca.Close(); _ = cb.Close() }, nil
+}
+
+// VerifHandleIncomingSSRCProbe installs the description as the connection's remote description, installs a
+// real SRTP and SRTCP session in its DTLS transport, delivers pkts (raw RTP packets of one SSRC, in order)
+// through the peer session and runs handleIncomingSSRC for that SSRC. When the probing loop wants more
+// packets than were supplied its read fails after a short deadline. Classes, in addition to those of
+// VerifHandleIncomingSSRC:
+//
+//	failed      errPeerConnSimulcastIncomingSSRCFailed (no transceiver took the stream)
+//	notfound    the chosen receiver has no track for the rid / rsid
+//	eof         the chosen receiver is closed
+//	read-err    the probing loop ran out of packets
+func VerifHandleIncomingSSRCProbe(
+	pc *PeerConnection, typ SDPType, s *sdp.SessionDescription, ssrc SSRC, pkts [][]byte,
+) string {
+	verifInstallRemote(pc, typ, s)
+	sa, sb, closeRTP, err := verifSRTPPair()
+	if err != nil {
+		return "hook-error"
+	}
+	defer closeRTP()
+	ca, cb, closeRTCP, err := verifSRTCPPair()
+	if err != nil {
+		return "hook-error"
+	}
+	defer closeRTCP()
+	// the connection's interceptors write RTCP on the installed session: accept and drain it on the peer
+	// side, as the remote peer's transport would
+	go func() {
+		for {
+			rs, _, aerr := ca.AcceptStream()
+			if aerr != nil {
+				return
+			}
+			go func() {
+				b := make([]byte, 1500)
+				for {
+					if _, rerr := rs.Read(b); rerr != nil {
+						return
+					}
+				}
+			}()
+		}
+	}()
+	pc.dtlsTransport.srtpSession.Store(sb)
+	pc.dtlsTransport.srtcpSession.Store(cb)
+
+	stream, err := sb.OpenReadStream(uint32(ssrc))
+	if err != nil {
+		return "hook-error"
+	}
+	sentinelSSRC := uint32(ssrc) ^ 0x5a5a5a5a
+	sentinel, err := sb.OpenReadStream(sentinelSSRC)
+	if err != nil {
+		return "hook-error"
+	}
+	ws, err := sa.OpenWriteStream()
+	if err != nil {
+		return "hook-error"
+	}
+	delivered := 0
+	for _, p := range pkts {
+		if _, werr := ws.Write(p); werr == nil {
+			delivered++
+		}
+	}
+	if delivered != len(pkts) {
+		return "hook-error"
+	}
+	// the receiving session handles packets in order: once the sentinel is readable every packet is buffered
+	if _, werr := ws.Write([]byte{
+		0x80, 96, 0, 1, 0, 0, 0, 1,
+		byte(sentinelSSRC >> 24), byte(sentinelSSRC >> 16), byte(sentinelSSRC >> 8), byte(sentinelSSRC), 0,
+	}); werr != nil {
+		return "hook-error"
+	}
+	_ = sentinel.SetReadDeadline(time.Now().Add(20 * time.Second))
+	if _, rerr := sentinel.Read(make([]byte, 1500)); rerr != nil {
+		return "hook-error"
+	}
+	if delivered > 0 {
+		_ = stream.SetReadDeadline(time.Now().Add(1500 * time.Millisecond))
+	} else {
+		_ = stream.SetReadDeadline(time.Now().Add(30 * time.Millisecond))
+	}
+	err = pc.handleIncomingSSRC(stream, ssrc)
+	var netErr net.Error
+	switch {
+	case err == nil:
+		return "nil"
+	case errors.Is(err, errMediaSectionHasExplictSSRCAttribute):
+		return "ssrc-err"
+	case errors.Is(err, errPeerConnRemoteSSRCAddTransceiver):
+		return "err-add"
+	case errors.Is(err, errRTPTooShort):
+		return "err-peek"
+	case errors.Is(err, ErrCodecNotFound):
+		return "err-codec"
+	case errors.Is(err, errPeerConnEarlyMediaWithoutAnswer):
+		return "err-early"
+	case errors.Is(err, errPeerConnSimulcastMidRTPExtensionRequired):
+		return "err-mid-required"
+	case errors.Is(err, errPeerConnSimulcastStreamIDRTPExtensionRequired):
+		return "err-rid-required"
+	case errors.Is(err, errPeerConnSimulcastIncomingSSRCFailed):
+		return "failed"
+	case errors.Is(err, errRTPReceiverForRIDTrackStreamNotFound):
+		return "notfound"
+	case errors.Is(err, io.EOF):
+		return "eof"
+	case delivered == 0:
+		return "err-peek"
+	case errors.As(err, &netErr) && netErr.Timeout():
+		return "read-err"
+	}
+
+	return "other-error " + err.Error()
+}
+
+// VerifProbeChoice reports which transceiver's receiver now owns the SSRC: (index, "rid") when one of its
+// tracks has it as SSRC, (index, "rtx") when one has it as RTX SSRC, (-1, "") otherwise.
+func VerifProbeChoice(pc *PeerConnection, ssrc SSRC) (int, string) {
+	for i, t := range pc.GetTransceivers() {
+		r := t.Receiver()
+		if r == nil {
+			continue
+		}
+		for _, tr := range r.Tracks() {
+			if tr.SSRC() == ssrc {
+				return i, "rid"
+			}
+			if tr.RtxSSRC() == ssrc {
+				return i, "rtx"
+			}
+		}
+	}
+
+	return -1, ""
+}
